@@ -1,6 +1,8 @@
 package main
 
 import (
+	"fmt"
+	"go/types"
 	"sort"
 	"strings"
 
@@ -67,6 +69,48 @@ func checkC24(r *Run) {
 		r.Check("C24-R1", s.fn+" "+s.kind+"s "+s.m+" ("+s.desc+")", s.pos, allowedWriters[s.fn], "unexpected writer of connection bookkeeping")
 	}
 	r.Min("C24-R1", 12)
+	// the records themselves are part of the bookkeeping (remove and introduced act on Outgoing, State, ListenPort,
+	// Mirror, gnetID): a live record is written only by the Connections methods; everyone else works on copies
+	nRec := 0
+	for _, fn := range r.P.ModFns {
+		name := FnName(fn)
+		if !strings.HasPrefix(name, "daemon.") {
+			continue
+		}
+		for _, b := range fn.Blocks {
+			for _, in := range b.Instrs {
+				st, ok := in.(*ssa.Store)
+				if !ok {
+					continue
+				}
+				// walk to the root of the address
+				root := st.Addr
+				isRec := false
+				for d := 0; d < 10; d++ {
+					fa, ok := root.(*ssa.FieldAddr)
+					if !ok {
+						break
+					}
+					ts := types.TypeString(derefType(fa.X.Type()), nil)
+					if strings.HasSuffix(ts, "/daemon.connection") || strings.HasSuffix(ts, "/daemon.ConnectionDetails") {
+						isRec = true
+					}
+					root = fa.X
+				}
+				if !isRec {
+					continue
+				}
+				if _, local := root.(*ssa.Alloc); local {
+					continue // a copy or a record under construction
+				}
+				nRec++
+				owner, _ := r.P.attribute(fn, b)
+				r.Check("C24-R1", name+": a live connection record is written only by the Connections methods", r.P.Pos(in.Pos()), allowedWriters[FnName(owner)] || strings.HasPrefix(name, "daemon.Connections."),
+					"field of a record held in Connections.conns is written outside the bookkeeping methods: the maps are not adjusted with it")
+			}
+		}
+	}
+	r.Check("C24-R1", "writes to live connection records found", "", nRec >= 8, fmt.Sprint(nRec))
 	has := func(s site, pats ...string) bool { _, m := matchAny(pats, s.facts); return m }
 	conn := "$0.conns[$1]"
 	for _, s := range sites {
